@@ -301,8 +301,8 @@ def binop(I, op, a, b):
     a, b = _to_intlike(I, a), _to_intlike(I, b)
     if isinstance(a, VFloat) or isinstance(b, VFloat) or o == "/":
         if o in "+-*":
-            if isinstance(a, VFloat) and isinstance(b, VFloat) and a.c is not None and b.c is not None:
-                return VFloat(c={"+": a.c + b.c, "-": a.c - b.c, "*": a.c * b.c}[o])
+            if getattr(a, "c", None) is not None and getattr(b, "c", None) is not None:
+                return VFloat(c=float({"+": a.c + b.c, "-": a.c - b.c, "*": a.c * b.c}[o]))
             x, y = to_real(I, a), to_real(I, b)
             return VFloat(t={"+": x + y, "-": x - y, "*": x * y}[o])
         if o == "/":
